@@ -219,6 +219,25 @@ def seq : P String := do
         flist (l4 s.p.cP4) ++ " " ++ flist (l6 s.p.cP2) ++ " " ++ flist (l2 s.p.stress) ++ " " ++
         flist (l2 s.p.strain) ++ " " ++ flist (l2 s.eig) ++ " " ++ fout (computeSimple s r))
 
+def showState (s : State Float) (r : V3 Float) : String :=
+  s!"{descNat s.desc} " ++ flist (l4 s.p.cM4) ++ " " ++ flist (l6 s.p.cM2) ++ " " ++
+    flist (l4 s.p.cP4) ++ " " ++ flist (l6 s.p.cP2) ++ " " ++ flist (l2 s.p.stress) ++ " " ++
+    flist (l2 s.p.strain) ++ " " ++ flist (l2 s.eig) ++ " " ++ fout (computeSimple s r)
+
+/-- el.fam K desc_0 … desc_{K-1} nops (obj op)… r(3)
+    → flags, then per object: desc cM4 cM2 cP4 cP2 stress strain eig energy (interleaved calls on K live objects) -/
+def fam : P String := do
+  let ds ← lst pdesc
+  let ops ← lst (do let i ← nat; let op ← pop; pure (i, op))
+  let r ← pv3
+  let f0 : Family Float := ds.map fun d => init d
+  let (f, flags) := ops.foldl (fun (acc : Family Float × String) io =>
+      let ok := match acc.1[io.1]? with
+        | some s => (step ev inv6 s io.2).2
+        | none => false
+      (stepAt ev inv6 acc.1 io.1 io.2, acc.2 ++ bstr ok)) (f0, "x")
+  pure (flags ++ " " ++ " ".intercalate (f.map fun s => showState s r))
+
 def handle (verb : String) : Option (P String) :=
   match verb with
   | "el.gen.moduli" => some genModuli
@@ -234,6 +253,7 @@ def handle (verb : String) : Option (P String) :=
   | "el.inv4" => some inv4v
   | "el.energy" => some energy
   | "el.seq" => some seq
+  | "el.fam" => some fam
   | _ => none
 
 end KawinV.Drv.C16
